@@ -8,7 +8,6 @@ import (
 	"context"
 	"errors"
 	"fmt"
-	"sort"
 	"strings"
 	"sync"
 	"sync/atomic"
@@ -753,5 +752,4 @@ func zvRaceParts(m *zmon, rng *core.Rand, pools map[string][]*zpol) {
 		}
 		w.close()
 	}
-	_ = sort.Strings
 }
